@@ -152,7 +152,7 @@ def _check(ctx, run, flags=(), label="default"):
                 ev.run_blocks(rs.entry, max_steps=50)
             except Unknown:
                 pass
-            run.ob("R2", "RestoreJumpBuffer implementation pops exactly one level (from %d)" % (d0 + 1) + sfx, rs.site, ev.env.get(depth) == d0 and not [t for t in ev.trace], witness={"after": ev.env.get(depth)})
+            run.ob("R2", "RestoreJumpBuffer implementation pops exactly one level (from %d)" % (d0 + 1) + sfx, rs.site, ev.env.get(depth) == d0 and not [t for t in ev.trace if not str(t[0]).startswith(("enter ", "leave "))], witness={"after": ev.env.get(depth), "calls": [str(t[0]) for t in ev.trace if not str(t[0]).startswith(("enter ", "leave "))]})
         for p in enumerate_paths(lj, stop=lambda f, n: n["k"] == "CallExpr" and (prog.callee_name(f, n) or "") in LJN):
             run.ob("R2", "LongJmp implementation never returns" + sfx, lj.site, p.end in ("stop", "noreturn"), witness=p.end)
         # handlers
